@@ -65,9 +65,11 @@ CLAIMED = {
         "every Newton step keeps H^p*Ad = M, hence the reported error is exactly the residual of the "
         "iterate and never understates the residual of the returned (blended) matrix; retry loop returns "
         "the last attempt (ridge eps*10^(n-1)); padding masks are closed under the iteration; a Rayleigh "
-        "quotient never exceeds a bound of the form. Tie per run: lax.while_loop recorded under "
-        "disable_jit; sampled Newton transitions checked against the exact model step and every guard "
-        "decision replayed in Coq; for every returned root with error < 0.1, root_cert computes "
+        "quotient never exceeds a bound of the form; eigh residual identity. Tie per run: the loop body "
+        "and loop condition of the coupled Newton iteration are TRANSLATED from source "
+        "(tools/py2v_float.py -> C01/Ref.v, GenEq obligations by reflexivity); lax.while_loop is "
+        "recorded under disable_jit and sampled transitions / every guard decision are checked "
+        "against the translated functions evaluated exactly; for every returned root with error < 0.1, root_cert computes "
         "X^p(A+dI)-I exactly (zero padding, symmetry, residual <= err+slack) and maxev_ok certifies the "
         "eigenvalue estimate against a PSD-certified bound (verified LDL^T checker).",
         "Trusted: Coq kernel + vm_compute; no axioms. NOT verified: float rounding of the iteration and "
